@@ -14,6 +14,7 @@ import (
 	"sort"
 	"strings"
 
+	"github.com/pingcap/kvproto/pkg/metapb"
 	"github.com/tikv/pd/server/core"
 	"github.com/tikv/pd/server/schedule/placement"
 	"verif/harness/lib/sim"
@@ -42,6 +43,8 @@ func (u *updateDesc) class() string {
 		return "store"
 	case "config":
 		return "config"
+	case "restart-checkers":
+		return "restart"
 	}
 	return "rule"
 }
@@ -68,6 +71,8 @@ func applyUpdate(s *stats, cl *cluster, cur *world, u *updateDesc) error {
 		}
 	}
 	switch u.Kind {
+	case "restart-checkers":
+		cl.restartCheckers(false)
 	case "rule-set":
 		for i := range u.Rules {
 			refused(cl.RuleManager.SetRule(toRule(&u.Rules[i])))
@@ -155,8 +160,10 @@ func genConstraints(rng *rand.Rand, zones []string) []consDesc {
 	switch x := rng.Intn(100); {
 	case x < 30:
 		return nil // relaxed to unconstrained
-	case x < 62:
+	case x < 56:
 		return []consDesc{{Key: "zone", Op: "in", Values: sub()}}
+	case x < 62:
+		return []consDesc{{Key: "zone", Op: []string{"in", "notIn"}[rng.Intn(2)], Values: oddValues(rng, zones)}}
 	case x < 74:
 		return []consDesc{{Key: "zone", Op: "notIn", Values: []string{zones[rng.Intn(len(zones))]}}}
 	case x < 82:
@@ -390,14 +397,15 @@ const (
 
 // worldRun is one history in progress.
 type worldRun struct {
-	s       *stats
-	cl      *cluster
-	w0, cur *world
-	history []roundDesc
-	seen    map[string]bool
-	pop     map[uint64]*sim.Region // the regions of the cluster as they are now
-	popIDs  []uint64
-	nextID  uint64
+	s         *stats
+	cl        *cluster
+	w0, cur   *world
+	history   []roundDesc
+	seen      map[string]bool
+	pop       map[uint64]*sim.Region // the regions of the cluster as they are now
+	malformed map[uint64]string
+	popIDs    []uint64
+	nextID    uint64
 }
 
 func (h *worldRun) suffix() string {
@@ -408,6 +416,8 @@ func (h *worldRun) suffix() string {
 		return ":after-store-update"
 	case h.seen["config"]:
 		return ":after-config-update"
+	case h.seen["restart"]:
+		return ":after-checker-restart"
 	}
 	return ""
 }
@@ -424,7 +434,7 @@ func (h *worldRun) setRegion(r *sim.Region) *core.RegionInfo {
 
 func (h *worldRun) kaseOf(r *sim.Region, round int, hist []roundDesc, snapshot *world, failAlloc string) *kase {
 	return &kase{World: snapshot, Region: layoutOf(r), RegionID: r.ID, ConfVer: r.ConfVer, NoLeader: r.LeaderStore == 0,
-		FailAlloc: failAlloc, Initial: h.w0, History: hist, Round: round}
+		FailAlloc: failAlloc, Malformed: h.malformed[r.ID], Initial: h.w0, History: hist, Round: round}
 }
 
 // genRound draws the regions of a round: new ones and revisits of regions checked before (as they are
@@ -442,11 +452,21 @@ func (h *worldRun) genRound(rng *rand.Rand, round int, afterRuleUpdate bool) []r
 		specs := genRegion(rng, h.cur, afterRuleUpdate && i%2 == 0)
 		d := regionDesc{ID: h.nextID, Layout: layoutString(specs)}
 		h.nextID++
-		if rng.Intn(50) == 0 {
+		switch x := rng.Intn(100); {
+		case x < 2:
 			for j := range specs {
 				specs[j].Leader = false
 			}
 			d.Layout, d.NoLeader = layoutString(specs), true
+		case x < 3:
+			// two peers of the region on one store (a state pd should never produce, but may be handed)
+			p := specs[rng.Intn(len(specs))]
+			specs = append(specs, sim.PeerSpec{Store: p.Store, Role: p.Role, ID: idBase + 900000 + p.Store%1000})
+			d.Layout, d.Malformed = layoutString(specs), "dup-store"
+		case x < 4:
+			// a peer on a store the cluster has no record of
+			specs = append(specs, sim.PeerSpec{Store: 777777, Role: metapb.PeerRole_Voter, ID: idBase + 777777})
+			d.Layout, d.Malformed = layoutString(specs), "missing-store"
 		}
 		out = append(out, d)
 	}
@@ -455,7 +475,7 @@ func (h *worldRun) genRound(rng *rand.Rand, round int, afterRuleUpdate bool) []r
 	}
 	for _, i := range rng.Perm(len(h.popIDs))[:nRev] {
 		r := h.pop[h.popIDs[i]]
-		out = append(out, regionDesc{ID: r.ID, ConfVer: r.ConfVer, Layout: layoutOf(r), NoLeader: r.LeaderStore == 0, Revisit: true})
+		out = append(out, regionDesc{ID: r.ID, ConfVer: r.ConfVer, Layout: layoutOf(r), NoLeader: r.LeaderStore == 0, Malformed: h.malformed[r.ID], Revisit: true})
 	}
 	for i := range out {
 		if rng.Intn(16) == 0 {
@@ -467,7 +487,7 @@ func (h *worldRun) genRound(rng *rand.Rand, round int, afterRuleUpdate bool) []r
 
 // runHistory runs one world: with rng != nil the rounds are generated on the fly (rule updates are
 // derived from the rules the rule manager serves at that moment), otherwise the given rounds are replayed.
-func runHistory(s *stats, w0 *world, rng *rand.Rand, fixed []roundDesc) error {
+func runHistory(s *stats, w0 *world, rng *rand.Rand, fixed []roundDesc, fields []string) error {
 	cl, err := newCluster(w0)
 	if err != nil {
 		return err
@@ -485,8 +505,11 @@ func runHistory(s *stats, w0 *world, rng *rand.Rand, fixed []roundDesc) error {
 	if cl.defaultKept {
 		s.count("worlds_custom_rules_without_voter_default_rule_kept", 1)
 	}
-	h := &worldRun{s: s, cl: cl, w0: w0, cur: cloneWorld(w0), seen: map[string]bool{}, pop: map[uint64]*sim.Region{}, nextID: regionBase}
+	h := &worldRun{s: s, cl: cl, w0: w0, cur: cloneWorld(w0), seen: map[string]bool{}, pop: map[uint64]*sim.Region{}, malformed: map[uint64]string{}, nextID: regionBase}
 	n := roundsPerWorld
+	if fields != nil {
+		n = len(fields) + 1
+	}
 	if rng == nil {
 		n = len(fixed)
 	}
@@ -494,8 +517,17 @@ func runHistory(s *stats, w0 *world, rng *rand.Rand, fixed []roundDesc) error {
 		var rd roundDesc
 		if rng == nil {
 			rd = fixed[round]
+		} else if round > 0 && fields != nil {
+			if rd.Update = genOneField(rng, cl, h.cur, fields[round-1]); rd.Update != nil {
+				s.count("one_field_updates_"+fields[round-1], 1)
+			}
 		} else if round > 0 {
-			rd.Update = genUpdate(rng, cl, h.cur)
+			switch x := rng.Intn(100); {
+			case x < 6:
+				rd.Update = &updateDesc{Kind: "restart-checkers", What: "controller context cancelled, one more pass, checkers and controller rebuilt on the same cluster"}
+			default:
+				rd.Update = genUpdate(rng, cl, h.cur)
+			}
 		}
 		if rd.Update != nil {
 			if err := applyUpdate(s, cl, h.cur, rd.Update); err != nil {
@@ -525,6 +557,9 @@ func runHistory(s *stats, w0 *world, rng *rand.Rand, fixed []roundDesc) error {
 			}
 			if d.Revisit {
 				s.count("region_revisits", 1)
+			}
+			if d.Malformed != "" {
+				h.malformed[d.ID] = d.Malformed
 			}
 			h.setRegion(r)
 			k := h.kaseOf(r, round, hist, snapshot, d.FailAlloc)
